@@ -275,7 +275,7 @@ func init() {
 	for _, p := range []string{"vh_C06_", "vh_C04_batch", "vh_C05_batch", "vh_C07_batch", "vh_C13_batch", "vh_C03_batch"} {
 		customReplayers[p] = batchSweepReplayer
 	}
-	for _, p := range []string{"vh_C01_", "vh_C05_Verify", "vh_C04_verify", "vh_C09_api"} {
+	for _, p := range []string{"vh_C01_", "vh_C05_Verify", "vh_C04_verify"} {
 		customReplayers[p] = verifySweepReplayer
 	}
 	for _, p := range []string{"vh_C02_", "vh_C14_GenerateKey", "vh_C14_accessors"} {
